@@ -309,8 +309,11 @@ def natural_stream(ctx, rep, count):
                 rep.dist['natural-range:raised:' + type(e).__name__] += 1
                 continue
         want = list(range(exp['lags'], n - exp['leads']))
-        ok = [int(x) for x in idx] == want and list(labs) == [labels[p] for p in want] and \
-            [j for j in range(n) if str(m.status[j]) != '-'] == want
+        try:
+            ok = [int(x) for x in idx] == want and list(labs) == [labels[p] for p in want] and \
+                [j for j in range(n) if str(m.status[j]) != '-'] == want
+        except Exception:  # noqa: BLE001   (positions that are not integers, labels that cannot be listed, …)
+            ok = False
         rep.dist['natural-range:' + ('ok' if ok else 'WRONG')] += 1
         rep.case(('natural-range', txt, n), nontrivial=exp['lags'] + exp['leads'] > 0)
         if not ok:
